@@ -1368,6 +1368,9 @@ def ext_lround(ex, st, fr, args, ins):
         v = Fraction(x) if not isinstance(x, Fraction) else x
         k = math.floor(v + Fraction(1, 2)) if v >= 0 else -math.floor(-v + Fraction(1, 2))
         return k & MASK(64)
+    if ex.round_toint and ex.dom.name != 'fp':      # no enumeration of integer parts: a fresh mathematical integer tied to the argument
+        kr = ex.round_sym(st, 'round', x); k = ex.intsym[kr.get_id()][1]
+        return z3.Int2BV(k, 64)
     return Forks([(c, k & MASK(64), None) for c, k in ex.int_split(st, x + Fraction(1, 2), 'floor')])
 DEFAULT_EXT = {'lround': ext_lround, 'lroundf': ext_lround, 'llround': ext_lround, 'llroundf': ext_lround, '_Znwm': ext_new, '_Znam': ext_new, '_ZdlPv': ext_free, '_ZdaPv': ext_free, '_ZdlPvm': ext_free, '_ZdaPvm': ext_free, 'free': ext_free, 'malloc': ext_new,
                'modff': ext_modff, 'memcmp': ext_memcmp, 'bcmp': ext_memcmp, 'strlen': ext_strlen, 'strcmp': ext_strcmp, 'memchr': ext_memchr,
